@@ -214,7 +214,7 @@ def run(tier, seed, t0):
     for ops, nm, fresh in SCEN + (SCEN_T if tier == "thorough" else []):
         try:
             scenario(e3, ops, nm, fresh)
-        except sym.Unsupported as ex:
+        except _e3.ENC_ERRORS as ex:
             e3.error(nm, "MIR->SMT encoding of metrics_util::registry", ex)
     finish("C06", tier, seed, list(e3.res.obligations), t0, ASSUME + ["E3 callee models: " + ", ".join(sorted(e3.models))], sorted(e3.functions),
            explanation="MIR->SMT partial-order encoding of Registry::{get_or_create_*, get_*, delete_*} over sharded abstract maps with a lock-word model of RwLock")
